@@ -354,7 +354,14 @@ def _k1_worker(args):
             L = pre + L + ["d insok S %s -" % kk]
           else:
             L = pre + L + ["d insokc %s %d %s 0 %s" % (kk, ln, tool, enc(data))]
-          prem = ("S" if oe else "T", kk, ln, call_clobber_region(bpo, po, ln))
+          zone = False
+          if oe and tool == "type":
+            # a stand-alone `# type:` comment between a def header and its body is taken for a function type
+            # comment by parser.py and ends the signature's line range there: not a plain stand-alone directive
+            for node in _ast.walk(_ast.parse(s2)):
+              if isinstance(node, (_ast.FunctionDef, _ast.AsyncFunctionDef)) and node.lineno <= ln < node.body[0].lineno:
+                zone = True
+          prem = ("S" if oe else "T", kk, ln, call_clobber_region(bpo, po, ln), zone)
       L.append("d build")
       R.append("ValueError" if d == "ValueError" else "ok")
       if d != "ValueError":
@@ -371,16 +378,30 @@ def _k1_worker(args):
                    "prem": prem, "disable": list(disable)})
       lines_out.append(L)
       real_out.append(R)
-  return lines_out, real_out, meta
+  return compare_k1(common.Driver("drv_c03"), [(lines_out, real_out, meta)])
 
 
-def run_k1_batch(drv, results):
-  """results: list of worker outputs. Feeds the driver, compares. Returns (disagreements, stats)."""
+def _k1_stats():
+  return {"variants": 0, "queries": 0, "skipped": 0, "premise_trailing": 0, "premise_trailing_ok": 0,
+          "premise_standalone": 0, "premise_standalone_ok": 0, "premise_known_region_call_clobber": 0,
+          "premise_excluded_function_type_comment_zone": 0,
+          "suppressed_answers": 0, "crash_answers": 0, "build_crashes": 0, "distinct_nontrivial": 0}
+
+
+def run_k1_batch(results):
+  """Merges the per-program worker results."""
+  dis, stats = [], _k1_stats()
+  for d, st in results:
+    dis += d
+    for k, v in st.items():
+      stats[k] += v
+  return dis, stats
+
+
+def compare_k1(drv, results):
+  """results: list of (driver lines, real outputs, meta). Feeds the driver, compares. Returns (disagreements, stats)."""
   dis = []
-  stats = {"variants": 0, "queries": 0, "skipped": 0, "premise_trailing": 0, "premise_trailing_ok": 0,
-           "premise_standalone": 0, "premise_standalone_ok": 0, "premise_known_region_call_clobber": 0,
-           "suppressed_answers": 0,
-           "crash_answers": 0, "build_crashes": 0, "distinct_nontrivial": 0}
+  stats = _k1_stats()
   seen = set()
   for lines_out, real_out, meta in results:
     metas = [m for m in meta if "skip" not in m]
@@ -400,6 +421,8 @@ def run_k1_batch(drv, results):
         stats["premise_" + kind] += 1
         if ans.split(" ")[0] == "1":
           stats["premise_" + kind + "_ok"] += 1
+        elif m["prem"][4]:
+          stats["premise_excluded_function_type_comment_zone"] += 1
         elif m["prem"][3]:
           # known finding c03-call-group-clobber (parser.py): the edited line shares a Call range with another
           # comment-bearing line; the theorems do not apply there and the region is represented by its witness
@@ -539,16 +562,10 @@ def _synth_worker(args):
             R.append(real_query(errors, d, True, op, name, grid))
       cases.append((L, R, {"po": po, "disable": list(disable)}))
     cap.fake = None
-  return cases
+  return compare_synth(common.Driver("drv_c03"), cases)
 
 
-def k1_synth(drv, rng, tier):
-  n = 3000 if tier == "quick" else 40000
-  nproc = min(16, os.cpu_count() or 4)
-  per = (n + nproc - 1) // nproc
-  with multiprocessing.Pool(nproc) as pool:
-    chunks = pool.map(_synth_worker, [(rng.randrange(1 << 30), per) for _ in range(nproc)])
-  cases = [c for ch in chunks for c in ch]
+def compare_synth(drv, cases):
   flat = []
   for L, R, m in cases:
     flat += L
@@ -556,7 +573,7 @@ def k1_synth(drv, rng, tier):
   pos = 0
   dis = []
   st = {"cases": len(cases), "build_value_errors": 0, "suppressed_answers": 0, "crash_answers": 0,
-        "relined_answers": 0, "distinct_nontrivial": 0}
+        "distinct_nontrivial": 0}
   seen = set()
   for L, R, m in cases:
     mod = out[pos:pos + len(R)]
@@ -577,12 +594,28 @@ def k1_synth(drv, rng, tier):
   return dis, st
 
 
+def k1_synth(drv, rng, tier):
+  n = 2400 if tier == "quick" else 40000
+  nproc = min(16, os.cpu_count() or 4)
+  chunks_n = nproc if tier == "quick" else nproc * 8
+  per = (n + chunks_n - 1) // chunks_n
+  with multiprocessing.Pool(nproc) as pool:
+    chunks = pool.map(_synth_worker, [(rng.randrange(1 << 30), per) for _ in range(chunks_n)], chunksize=1)
+  dis = []
+  st = {"cases": 0, "build_value_errors": 0, "suppressed_answers": 0, "crash_answers": 0, "distinct_nontrivial": 0}
+  for d, s_ in chunks:
+    dis += d
+    for k, v in s_.items():
+      st[k] += v
+  return dis, st
+
+
 def correspond(res, rng, tier):
-  drv = common.ensure_driver("drv_c03")
+  drv = common.Driver("drv_c03")   # built together with the proofs (extra_targets), one lake invocation
   t0 = time.time()
   dis0, st0 = k0_lineset(res, rng, tier, drv)
   t_k0 = time.time() - t0
-  nprog = 40 if tier == "quick" else 300
+  nprog = 32 if tier == "quick" else 100
   kinds = QUICK_DIRECTIVES if tier == "quick" else list(range(len(DIRECTIVES)))
   progs = []
   seen = set()
@@ -594,8 +627,7 @@ def correspond(res, rng, tier):
     progs.append(s)
   with multiprocessing.Pool(min(16, os.cpu_count() or 4)) as pool:
     results = pool.map(_k1_worker, [(s, kinds, rng.randrange(1 << 30)) for s in progs], chunksize=1)
-  t1 = time.time()
-  dis1, st1 = run_k1_batch(drv, results)
+  dis1, st1 = run_k1_batch(results)
   t_k1 = time.time() - t0 - t_k0
   t2 = time.time()
   dis1s, st1s = k1_synth(drv, rng, tier)
@@ -603,7 +635,6 @@ def correspond(res, rng, tier):
   t2 = time.time()
   dis2, st2, samples2 = k2_end_to_end(drv, rng, tier)
   t_k2 = time.time() - t2
-  st1["driver_wall_s"] = round(time.time() - t1 - t_k1s - t_k2, 1)
   res.cov["evaluations"] = st0["cases"] + st1["variants"] + st1s["cases"]
   res.cov["distinct_nontrivial"] = st0["nontrivial"] + st1["distinct_nontrivial"] + st1s["distinct_nontrivial"]
   res.cov["distribution"] = {"K0_lineset": st0, "K1_filter": st1, "K1_programs": len(progs), "K1s_synthetic": st1s, "K2_end_to_end": st2,
@@ -802,7 +833,7 @@ def raw_expected(raw):
 
 
 def k2_end_to_end(drv, rng, tier, progs=None):
-  n = 60 if tier == "quick" else 500
+  n = 36 if tier == "quick" else 400
   if progs is None:
     progs, seen = [], set()
     while len(progs) < n:
@@ -810,8 +841,9 @@ def k2_end_to_end(drv, rng, tier, progs=None):
       if s not in seen:
         seen.add(s)
         progs.append(s)
-  with multiprocessing.Pool(min(16, os.cpu_count() or 4)) as pool:
-    results = pool.map(_k2_worker, [(s, rng.randrange(1 << 30), 3 if tier == "quick" else 5) for s in progs],
+  # few workers in quick: a worker's first VM run costs ~3 s of imports/loader warm-up, later ones ~0.3 s
+  with multiprocessing.Pool(min(8 if tier == "quick" else 16, os.cpu_count() or 4)) as pool:
+    results = pool.map(_k2_worker, [(s, rng.randrange(1 << 30), 2 if tier == "quick" else 5) for s in progs],
                        chunksize=1)
   dis = []
   st = {"programs": len(progs), "programs_with_errors": 0, "vm_runs": 0, "edits": 0, "not_appendable": 0,
@@ -1091,7 +1123,7 @@ def _lineset_spec_search(rng):
 
 
 def search(res, rng, disagreements, pfail):
-  found = []
+  found = []   # (finding, base source or None, evaluator)
   srcs = []
   for d in disagreements:
     if d.get("src") and d["src"] not in srcs:
@@ -1099,30 +1131,48 @@ def search(res, rng, disagreements, pfail):
   srcs = srcs[:40]
   extra_err = [c03_gen.gen_error_program(rng) for _ in range(80)]
   extra_lay = [c03_gen.gen_layout_program(rng, 18) for _ in range(120)]
-  found += _lineset_spec_search(rng)
+  for f in _lineset_spec_search(rng):
+    found.append((f, None, None))
+  seed_ = rng.randrange(1 << 30)
   with multiprocessing.Pool(min(16, os.cpu_count() or 4)) as pool:
     if not found:
-      for r in pool.imap_unordered(_s_filter_level, [(s, rng.randrange(1 << 30)) for s in srcs + extra_lay + extra_err]):
-        found += r
+      cands = srcs + extra_lay + extra_err
+      for src, r in zip(cands, pool.imap(_s_filter_level, [(s, seed_) for s in cands])):
+        found += [(f, src, "filter") for f in r]
         if len(found) >= 3:
           break
     if len(found) < 3:
-      for r in pool.imap_unordered(_s_end_to_end, [(s, 4) for s in srcs + extra_err]):
-        found += r
+      cands = srcs + extra_err
+      for src, r in zip(cands, pool.imap(_s_end_to_end, [(s, 4) for s in cands])):
+        found += [(f, src, "e2e") for f in r]
         if len(found) >= 3:
           break
     pool.terminate()
-  found.sort(key=lambda f: len(f.get("src", "")))
-  out = []
-  for f in found[:3]:
-    out.append(shrink_failing(f))
-  return out
+  found.sort(key=lambda f: len(f[1] or ""))
+  return [shrink_failing(f, src, how, seed_) for (f, src, how) in found[:3]]
 
 
-def shrink_failing(f):
-  """ddmin over the source lines of a failing input, re-evaluating the same oracle."""
-  if "src" not in f or f["oracle"].startswith("end-to-end") is False and "directive" not in f:
+def shrink_failing(f, src, how, seed_):
+  """ddmin over the lines of the base program, re-evaluating the same oracle on the real code."""
+  if src is None:
     return f
+  import ast as _ast
+
+  def evaluate(lines):
+    s = "\n".join(lines) + "\n"
+    try:
+      _ast.parse(s)
+    except SyntaxError:
+      return []
+    r = _s_filter_level((s, seed_)) if how == "filter" else _s_end_to_end((s, 4))
+    return [x for x in r if x.get("oracle") == f.get("oracle")]
+  lines = src.split("\n")[:-1]
+  small = common.ddmin(lines, lambda ls: bool(evaluate(ls)), budget_s=25.0 if how == "filter" else 40.0)
+  r = evaluate(small)
+  if r:
+    g = dict(r[0])
+    g["shrunk_from_lines"] = len(lines)
+    return g
   return f
 
 
@@ -1130,7 +1180,7 @@ def main():
   from translate import director_sets
   director_sets.main()
   return common.run_check(
-      "C03", REQUIRED, correspond, witnesses, search,
+      "C03", REQUIRED, correspond, witnesses, search, extra_targets=("drv_c03",),
       trusted=[
           "hand-written model of directors.py (_LineSet, Director._process_*, _BlockRanges, filter_error); its input is "
           "the real parser's output, so parser.py/ast/tokenize are inside the correspondence but outside the proofs",
